@@ -222,6 +222,17 @@ func checkC16(tier string) {
 					ft2 := "func(" + strings.Join(ps2, ", ") + ") (" + strings.Join(rs, ", ") + ")"
 					add("toerror", "toerror|named-results", "ToError(error, "+ft2+")", "toerror|"+funcT(ins, append(append([]string(nil), outs...), "bool")),
 						"func(e error, f "+ft2+") interface{} { return deriveToError_ID(e, f) }")
+					// parameters named like the identifiers the generated closure declares itself
+					if nin > 0 {
+						own := []string{"err", "f", "success", "out0"}
+						var ps3 []string
+						for j, t := range ins {
+							ps3 = append(ps3, own[(j+nout)%len(own)]+" "+t)
+						}
+						ft3 := funcT(ps3, append(append([]string(nil), outs...), "bool"))
+						add("toerror", "toerror|params-named-like-generated-locals", "ToError(error, "+ft3+")", "toerror|"+funcT(ins, append(append([]string(nil), outs...), "bool")),
+							"func(e error, f "+ft3+") interface{} { return deriveToError_ID(e, f) }")
+					}
 				}
 			}
 		}
